@@ -165,8 +165,10 @@ def optUnix : Option Int → Str
 
 def fmtDir (d : Nat) : Str := if d = 2 then [48] else if d = 1 then [49] else []
 
-def tripsHeader : Str := bs "trip_uid,trip_id,route_id,direction_id,start_time,vehicle_id,last_observed,marked_past,num_updates,num_schedule_changes,num_schedule_rewrites"
-def stopTimesHeader : Str := bs "trip_uid,stop_id,track,arrival_time,departure_time,last_observed,marked_past"
+/-- "trip_uid,trip_id,route_id,direction_id,start_time,vehicle_id,last_observed,marked_past,num_updates,num_schedule_changes,num_schedule_rewrites" -/
+def tripsHeader : Str := [116, 114, 105, 112, 95, 117, 105, 100, 44, 116, 114, 105, 112, 95, 105, 100, 44, 114, 111, 117, 116, 101, 95, 105, 100, 44, 100, 105, 114, 101, 99, 116, 105, 111, 110, 95, 105, 100, 44, 115, 116, 97, 114, 116, 95, 116, 105, 109, 101, 44, 118, 101, 104, 105, 99, 108, 101, 95, 105, 100, 44, 108, 97, 115, 116, 95, 111, 98, 115, 101, 114, 118, 101, 100, 44, 109, 97, 114, 107, 101, 100, 95, 112, 97, 115, 116, 44, 110, 117, 109, 95, 117, 112, 100, 97, 116, 101, 115, 44, 110, 117, 109, 95, 115, 99, 104, 101, 100, 117, 108, 101, 95, 99, 104, 97, 110, 103, 101, 115, 44, 110, 117, 109, 95, 115, 99, 104, 101, 100, 117, 108, 101, 95, 114, 101, 119, 114, 105, 116, 101, 115]
+/-- "trip_uid,stop_id,track,arrival_time,departure_time,last_observed,marked_past" -/
+def stopTimesHeader : Str := [116, 114, 105, 112, 95, 117, 105, 100, 44, 115, 116, 111, 112, 95, 105, 100, 44, 116, 114, 97, 99, 107, 44, 97, 114, 114, 105, 118, 97, 108, 95, 116, 105, 109, 101, 44, 100, 101, 112, 97, 114, 116, 117, 114, 101, 95, 116, 105, 109, 101, 44, 108, 97, 115, 116, 95, 111, 98, 115, 101, 114, 118, 101, 100, 44, 109, 97, 114, 107, 101, 100, 95, 112, 97, 115, 116]
 
 def tripCells (tr : Trip) : List Str :=
   [tr.uid, tr.tripId, tr.route, fmtDir tr.dir, intToDec tr.start, tr.vehicle, intToDec tr.lastObs,
